@@ -110,6 +110,7 @@ type State struct {
 	OwnedClose   []Term
 	Universals   []universal
 	LockSnap     *State // state right after the first Lock() on this path
+	HeldMus      []Term // mutexes currently held by this goroutine on this path
 }
 
 // universal is an assumed forall kept for later instantiation at new terms.
@@ -146,6 +147,7 @@ func (s *State) Clone() *State {
 		OwnedClose:   s.OwnedClose,
 		Universals:   append([]universal(nil), s.Universals...),
 		LockSnap:     s.LockSnap,
+		HeldMus:      append([]Term(nil), s.HeldMus...),
 	}
 	for k, v := range s.Mem {
 		n.Mem[k] = v
